@@ -53,6 +53,27 @@ func init() {
 		nsc := c.Budget(5, 60)
 		for i := 0; i < nsc && c.TimeLeft(); i++ {
 			sa, sb := genScenario(c, 3, c.Budget(700, 6000))
+			if i == 2 {
+				// directed: one message with a non-ASCII MID (the block checksum of its proposal line)
+				m := genMessage(c.Rng, sa.mycall, sb.mycall, 200)
+				m.Header.Set("Mid", "ÆØÅ"+genMid(c.Rng)[:1])
+				if o := newOutMsg(m); o.valid && sb.policy[o.mid] == 0 {
+					sa.outbox = append(sa.outbox, o)
+				}
+			}
+			if i == 1 {
+				// directed: one message whose compressed size is an exact multiple of the data block size
+				if o := exactMultipleMessage(c.Rng, sa.mycall, sb.mycall); o != nil && sb.policy[o.mid] == 0 {
+					dup := false
+					for _, x := range sa.outbox {
+						dup = dup || x.mid == o.mid
+					}
+					if !dup {
+						sa.outbox = append(sa.outbox, o)
+						c.Res.Distribution["directed:compressed-size-multiple-of-block"]++
+					}
+				}
+			}
 			if len(sa.outbox)+len(sb.outbox) == 0 {
 				sa.outbox = append(sa.outbox, newOutMsg(genMessage(c.Rng, sa.mycall, sb.mycall, 300)))
 			}
@@ -80,13 +101,18 @@ func init() {
 				}
 			}
 			clean := runPairImpl(sa, sb, c.Rng.Int63(), -1, -1)
-			if clean.a.hung || clean.b.hung {
+			if clean.a.hung || clean.b.hung || clean.stalled {
 				// the cut position k = "all bytes sent" is the session without a fault: it has to return as well
-				c.Violate("C02:no-return-without-fault", "Exchange did not return on an uninterrupted link (no session on these mailboxes ever completes)", scenarioReplay(sa, sb, map[string]interface{}{"cut_direction": "none"}))
+				// (stalled = both sides waiting for each other on an intact link; the harness's stand-in for the link
+				// timeout ended the run)
+				c.Violate("C02:no-return-without-fault", "Exchange did not return on an uninterrupted link: both sides wait for each other (no session on these mailboxes ever completes)", scenarioReplay(sa, sb, map[string]interface{}{"cut_direction": "none", "errA": fmt.Sprint(clean.a.err), "errB": fmt.Sprint(clean.b.err)}))
 				continue
 			}
 			if clean.a.err != nil || clean.b.err != nil {
-				continue // C01's business
+				// "a sequence of faulty sessions followed by a clean one" with zero faulty sessions: the clean session has to
+				// complete, or repeating exchanges on these mailboxes never delivers anything
+				c.Violate("C02:clean-session-fails", fmt.Sprintf("a session without any fault failed (%v / %v): repeating exchanges on these mailboxes never completes", clean.a.err, clean.b.err), scenarioReplay(sa, sb, map[string]interface{}{"cut_direction": "none", "errA": fmt.Sprint(clean.a.err), "errB": fmt.Sprint(clean.b.err)}))
+				continue
 			}
 			hsA, hsB := bytes.Index(clean.b.wire, []byte("\rF")), bytes.Index(clean.a.wire, []byte("\rF"))
 			for _, dir := range []string{"toA", "toB"} {
@@ -144,6 +170,17 @@ func init() {
 		dirMailboxRetry(c)
 		dirMailboxStorageFault(c)
 		storageFaultUnbuffered(c)
+		if len(cases) > 70000 {
+			// thorough tier: every run above was judged by the property's oracle; the comparison with the Lean pair model
+			// (the slow part: about 30 ms per case) takes an evenly spaced 70000 of them
+			stride := (len(cases) + 69999) / 70000
+			var kept []Case
+			for k := 0; k < len(cases); k += stride {
+				kept = append(kept, cases[k])
+			}
+			c.Note("model comparison on %d of %d cases (stride %d)", len(kept), len(cases), stride)
+			cases = kept
+		}
 		c.Compare(cases)
 	})
 }
